@@ -35,6 +35,11 @@ struct Group {
   std::vector<int> offN, offDoF, offRep, offDim;  // prefix sums, size blocks+1
   int N, DoF, Rep, Dim;
   std::string name;
+  // caches (filled by the constructor from the documented generator table)
+  std::vector<Mat> gens_;
+  std::vector<Real> gnorm2_;
+  std::vector<Mat> adbasis_;  // adbasis_[i] = ad(e_i)
+  std::vector<char> rotmask_t_;
 
   Group() : N(0), DoF(0), Rep(0), Dim(0) {}
   explicit Group(const std::vector<Block>& b);
